@@ -82,6 +82,8 @@ const SHIFT_TY: [(&str, bool, u32); 12] = [
 
 const BINOPS: &[&str] = &["add", "sub", "mul", "div", "rem", "and", "or", "xor", "div_euclid", "rem_euclid"];
 const INTOPS: &[&str] = &["mul_int", "div_int", "rem_int", "div_euclid_int", "rem_euclid_int"];
+const OBSOPS: &[&str] = &["count_ones", "count_zeros", "leading_zeros", "trailing_zeros", "is_pow2", "is_neg", "int_nbits", "frac_nbits",
+    "to_bits", "to_num", "to_num", "display"];
 const UNOPS: &[&str] = &["neg", "not", "abs", "signum", "npot", "ceil", "floor", "round", "round_ties_to_even", "round_to_zero", "int", "frac"];
 
 fn do_bin<F: Fx>(op: &str, form: u64, x: W<F>, y: W<F>) -> Result<W<F>, bool> {
@@ -91,10 +93,8 @@ fn do_bin<F: Fx>(op: &str, form: u64, x: W<F>, y: W<F>) -> Result<W<F>, bool> {
         "mul" => binforms!(form, x, y, *, *=),
         "div" => binforms!(form, x, y, /, /=),
         "rem" => binforms!(form, x, y, %, %=),
-        // by-reference bit operators need bounds on &F that a generic F does not give: value and assign forms
-        "and" => if form % 2 == 0 { cat(|| x & y) } else { cat(|| { let mut t = x; t &= y; t }) },
-        "or" => if form % 2 == 0 { cat(|| x | y) } else { cat(|| { let mut t = x; t |= y; t }) },
-        "xor" => if form % 2 == 0 { cat(|| x ^ y) } else { cat(|| { let mut t = x; t ^= y; t }) },
+        // the by-reference bit operators need bounds on &F: instantiated per concrete family (Fx::w_bit)
+        "and" | "or" | "xor" => F::w_bit(op, form, x, y),
         "div_euclid" => cat(|| x.div_euclid(y)),
         _ => cat(|| x.rem_euclid(y)),
     }
@@ -154,7 +154,8 @@ where
             let g = |k: &str| e.get(k).and_then(|v| v.as_i64()).unwrap_or(0);
             let op = e.get("op").and_then(|v| v.as_str()).unwrap_or("").to_string();
             let kind = if op == "load" { 0 } else if BINOPS.contains(&op.as_str()) { 1 } else if INTOPS.contains(&op.as_str()) { 2 }
-                else if op == "shl" || op == "shr" { 3 } else if UNOPS.contains(&op.as_str()) { 4 } else if op == "sum" || op == "product" { 5 } else { 6 };
+                else if op == "shl" || op == "shr" { 3 } else if UNOPS.contains(&op.as_str()) { 4 } else if op == "sum" || op == "product" { 5 }
+                else if op == "rotl" || op == "rotr" { 9 } else if OBSOPS.contains(&op.as_str()) { 10 } else if op == "ctor" { 11 } else { 6 };
             // TLC-generated steps carry the operand as "v" (load) or "n" (integer operand / shift amount),
             // Sum/Product as a register list "as"
             let num = if e.get("v").is_some() { g("v") } else { g("n") };
@@ -166,7 +167,8 @@ where
             (kind, op, (g("d") - 1) as usize, (a0 - 1).max(0) as usize, (b0 - 1).max(0) as usize, g("fm") as u64,
              rawv.unwrap_or((num as i128) as u128), g("nt") as usize)
         } else {
-            let kind = if step < 3 { 0 } else { [1u64, 1, 1, 1, 2, 3, 4, 4, 5, 6, 0, 8, 7][rng.below(if c.wr.big { 13 } else { 12 }) as usize] };
+            let kind = if step < 3 { [0u64, 0, 11][rng.below(3) as usize] }
+                else { [1u64, 1, 1, 1, 2, 3, 4, 4, 5, 6, 0, 8, 9, 10, 10, 11, 7][rng.below(if c.wr.big { 17 } else { 16 }) as usize] };
             let op = match kind {
                 1 => BINOPS[rng.below(BINOPS.len() as u64) as usize],
                 2 => INTOPS[rng.below(INTOPS.len() as u64) as usize],
@@ -176,10 +178,14 @@ where
                 6 => "from_int",
                 7 => "from_float",
                 8 => "from_fix",
+                9 => ["rotl", "rotr"][rng.below(2) as usize],
+                10 => OBSOPS[rng.below(OBSOPS.len() as u64) as usize],
+                11 => "ctor",
                 _ => "load",
             };
             let numraw = match kind {
-                0 | 2 => pick_val(rng),
+                0 | 2 | 11 => pick_val(rng),
+                9 => match rng.below(3) { 0 => rng.below(l.w as u64 * 2 + 2) as u128, 1 => (l.w as u64 * rng.below(4) + rng.below(3)) as u128, _ => (rng.next() as u32) as u128 },
                 3 => match rng.below(4) { 0 => rng.below(l.w as u64 * 2 + 2) as u128, 1 => (rng.below(9) as i128 - 4) as u128, 2 => (l.w as i128 * (rng.below(5) as i128 - 2) + rng.below(3) as i128 - 1) as u128, _ => rng.u128() },
                 _ => rng.pattern(64),
             };
@@ -309,6 +315,75 @@ where
                 c.wr.raw("}");
                 c.wr.end();
             }
+            9 => {
+                // rotate_left / rotate_right by a u32 amount (any amount; reduced modulo the width)
+                let x = reg[a];
+                let n = if c.wr.big { numraw as u32 } else { (numraw as u32) % 65536 };
+                let r = F::w_rot(op == "rotl", x, n);
+                if let Ok(v) = r { reg[d] = v; }
+                ev_head(c, op, d);
+                c.wr.raw(&format!(",\"a\":{},\"n\":", a + 1));
+                c.wr.num(Num::u(n as u128));
+                c.wr.raw(",\"r\":");
+                c.wr.out1(&wout(r));
+                c.wr.raw("}");
+                c.wr.end();
+            }
+            10 => {
+                // observers: no register changes
+                let x = reg[a];
+                // is_power_of_two exists for unsigned, is_negative for signed layouts only
+                if (op == "is_pow2" && l.s) || (op == "is_neg" && !l.s) { continue; }
+                c.wr.raw(&format!("{{\"k\":\"wobs\",\"op\":\"{}\",\"a\":{}", op, a + 1));
+                match op {
+                    "to_num" => {
+                        let nd = if c.wr.big { W_TO_NUM } else { 8 };
+                        let (dl, o) = F::w_to_num((form as usize + nt) % nd, x).unwrap();
+                        c.wr.raw(",\"D\":");
+                        c.wr.lay(dl);
+                        c.wr.raw(",\"r\":");
+                        c.wr.out1(&o);
+                    }
+                    "display" => {
+                        let (s1, s2) = F::w_display(x);
+                        c.wr.raw(",\"s\":");
+                        c.wr.bytes(&s1);
+                        c.wr.raw(",\"t\":");
+                        c.wr.bytes(&s2);
+                    }
+                    "is_pow2" | "is_neg" => {
+                        let o = if op == "is_pow2" { F::w_is_pow2(x) } else { F::w_is_neg(x) };
+                        c.wr.raw(",\"r\":");
+                        match o { Some(b) => c.wr.out1(&Out::I(b as i64)), None => c.wr.out1(&Out::Absent) }
+                    }
+                    _ => {
+                        c.wr.raw(",\"r\":");
+                        c.wr.out1(&F::w_obs(op, x));
+                    }
+                }
+                c.wr.raw("}");
+                c.wr.end();
+            }
+            11 => {
+                // a load through one of the constructors
+                let cn = ["min", "max", "from_bits", "from", "tuple"][(form as usize + nt) % 5];
+                let v = numraw & mask(l.w);
+                let r = cat(|| F::w_ctor(cn, v));
+                if let Ok(x) = r {
+                    reg[d] = x;
+                    c.wr.raw(&format!("{{\"k\":\"wload\",\"d\":{},\"c\":\"{}\",\"iv\":", d + 1, cn));
+                    c.wr.num(sval(v, l.s, l.w));
+                    c.wr.raw(",\"v\":");
+                    c.wr.num(x.0.val());
+                    c.wr.raw("}");
+                    c.wr.end();
+                } else {
+                    // a constructor never panics: report as a step without a value
+                    ev_head(c, "ctor_panic", d);
+                    c.wr.raw(",\"r\":[2]}");
+                    c.wr.end();
+                }
+            }
             8 => {
                 // Wrapping::from_num of a bool or of another fixed-point type
                 let sel = form % 4;
@@ -430,6 +505,28 @@ where
                              serde_json::json!({"op":*op,"d":2,"a":1,"fm":ui % 2})];
             program::<F>(c, &mut rng, Some(&steps));
         }
+    }
+    // systematic observer / rotate / constructor programs over the same values
+    for (vi, &a) in uvals.iter().enumerate() {
+        // quick tier: every second value, and always the values next to 0 / min / max
+        let edge = |x: u128| { let m = mask(l.w); let h = 1u128 << (l.w - 1); x <= 2 || m - x <= 2 || (x >= h - 2 && x <= h + 2) };
+        if c.tier != "thorough" && (vi + c.seed as usize) % 2 == 1 && !edge(a) { continue; }
+        let mut steps = vec![serde_json::json!({"op":"load","d":1,"rawv":{"raw": format!("{}", a)}})];
+        for (oi, op) in OBSOPS.iter().enumerate() {
+            if *op == "to_num" {
+                let nd = if c.wr.big { W_TO_NUM } else { 8 };
+                // 8-bit layouts: every destination for every value; wide layouts: destinations by turns
+                let dis: Vec<usize> = if l.w == 8 { (0..nd).collect() } else { vec![(vi * 2 + oi) % nd, (vi * 2 + oi + 7) % nd] };
+                for di in dis { steps.push(serde_json::json!({"op":"to_num","a":1,"fm":di,"nt":0})); }
+            } else {
+                steps.push(serde_json::json!({"op":*op,"a":1}));
+            }
+        }
+        for (k, n) in [0u32, 1, l.w - 1, l.w, l.w + 3, 4 * l.w + 1, 65535].iter().enumerate() {
+            steps.push(serde_json::json!({"op": if (vi + k) % 2 == 0 { "rotl" } else { "rotr" },"d":2,"a":1,"n":*n}));
+        }
+        for ci in 0..5 { steps.push(serde_json::json!({"op":"ctor","d":3,"fm":ci,"nt":0,"rawv":{"raw": format!("{}", a)}})); }
+        program::<F>(c, &mut rng, Some(&steps));
     }
     // systematic shift programs: every amount type x every spelling x a few amounts (negative, beyond the width)
     for op in ["shl", "shr"] {
